@@ -39,6 +39,9 @@ func (t *smallHuffCodeTable) GenerateForHeader(codes []huffCode, count []uint16,
 
 	codeListLen := countTotal[16]
 	if codeListLen == 0 {
+		for i := range shortCodeLookup {
+			shortCodeLookup[i] = 0
+		}
 		return
 	}
 	var codeList [distLen + 2]uint32 /* The +2 is for the extra codes in the static header */
@@ -59,6 +62,9 @@ func (t *smallHuffCodeTable) GenerateForHeader(codes []huffCode, count []uint16,
 	copySize := (1 << (lastLength - 1))
 
 	// /* Initialize shortCodeLookup, so invalid lookups process data */
+	for i := range shortCodeLookup[:copySize] {
+		shortCodeLookup[i] = 0
+	}
 	for ; lastLength <= distLookupBits; lastLength++ {
 		copy(shortCodeLookup[copySize:], shortCodeLookup[:copySize])
 		copySize *= 2
@@ -326,6 +332,10 @@ func (t *largeHuffCodeTable) encodeLongCodes(ctx *dynamicHeaderReader, codeListL
 				tempCodeList[tempCodeLength] = uint16(longCodeList[j])
 				tempCodeLength++
 			}
+		}
+
+		for x := longCodeLookupLength; x < longCodeLookupLength+(1<<(maxLen-litLenLookupBits)); x++ {
+			t.longCodeLookup[x] = 0
 		}
 
 		for j := 0; j < int(tempCodeLength); j++ {
